@@ -301,6 +301,22 @@ func c06SwitchOff(s *scn.Scn, r *scn.Run) (sig, detail string) {
 	if len(on) != len(of) || off.Invs[0].Gas != r.Invs[0].Gas {
 		return "switch_off:gas", fmt.Sprintf("join points on (nothing burnt): %d events, leftover %d; switch off: %d events, leftover %d", len(on), r.Invs[0].Gas, len(of), off.Invs[0].Gas)
 	}
+	// the same with the largest gas limit an entry point accepts (amounts above 2^63 must pass through the join points
+	// unchanged as well)
+	none := func(int, bool) scn.Answer { return scn.Answer{} }
+	hOn := scn.Exec(s, scn.RunOpts{TopGas: ^uint64(0), Modes: []bool{true}, Answer: none})
+	hOff := scn.Exec(s, scn.RunOpts{TopGas: ^uint64(0), Modes: []bool{false}, Answer: none})
+	if len(hOn.Invs) == 1 && len(hOff.Invs) == 1 && hOn.Invs[0].Panic == "" && hOff.Invs[0].Panic == "" {
+		a, b := steps(hOn.Events()), steps(hOff.Events())
+		for i := 0; i < len(a) && i < len(b); i++ {
+			if a[i] != b[i] {
+				return "switch_off:gas_above_2^63", fmt.Sprintf("top-level gas 2^64-1: event %d differs between join points on (nothing burnt) and off\non:  %s\noff: %s", i, a[i], b[i])
+			}
+		}
+		if len(a) != len(b) || hOn.Invs[0].Gas != hOff.Invs[0].Gas {
+			return "switch_off:gas_above_2^63", fmt.Sprintf("top-level gas 2^64-1: leftover %d with join points on (nothing burnt), %d with the switch off", hOn.Invs[0].Gas, hOff.Invs[0].Gas)
+		}
+	}
 	return "", ""
 }
 
@@ -343,7 +359,7 @@ func init() {
 		}}
 	register(&Check{ID: "C06", Level: "fault_enumeration",
 		Technique: "bounded exhaustive enumeration of scenario call trees x 1-2 Aspects per join point x answer vectors (burn 0/1/100/all gas, out of gas, revert, other failure, provider failure; deviation-bounded) executed on the real EVM with a scripted Aspect runtime; gas seen by the callee's first instruction, gas handed back to each caller (from the caller's own step gas around the call) and recorded leftovers are checked against what the join points left, plus a differential conservation check against the burn-free execution",
-		Rule:      "scenario trees (depth 2 full, depth 3 chains) with Aspects bound to every contract x answers with <= k deviations. Oracle per call: callee's first-step gas == gas left by the last pre Aspect; gas returned to the caller == gas left by the last post Aspect when the frame succeeded or reverted, 0 when it halted; out-of-gas at either join point => the identical vm.ErrOutOfGas value and 0 returned; any other non-revert post failure => 0 returned; no node and no caller ever sees more gas handed back than supplied; Aspect exit events report exactly the gas each Aspect left; with finite burns and no halting frame, top-level leftover == burn-free leftover - sum of burns; with nothing burnt and nothing failing, every instruction's gas and the leftover equal those of the same execution with the join-point switch off. non-trivial = distinct executions with at least one non-default answer",
+		Rule:      "scenario trees (depth 2 full, depth 3 chains) with Aspects bound to every contract x answers with <= k deviations. Oracle per call: callee's first-step gas == gas left by the last pre Aspect; gas returned to the caller == gas left by the last post Aspect when the frame succeeded or reverted, 0 when it halted; out-of-gas at either join point => the identical vm.ErrOutOfGas value and 0 returned; any other non-revert post failure => 0 returned; no node and no caller ever sees more gas handed back than supplied; Aspect exit events report exactly the gas each Aspect left; with finite burns and no halting frame, top-level leftover == burn-free leftover - sum of burns; with nothing burnt and nothing failing, every instruction's gas and the leftover equal those of the same execution with the join-point switch off, also with a top-level gas limit of 2^64-1. non-trivial = distinct executions with at least one non-default answer",
 		Assumptions: []string{"the scripted runtime never answers with more gas than it was given (the real runtime's contract)", "leftover after a non-out-of-gas pre failure and after an Aspect revert is not judged beyond 'not more than supplied'"},
 		Bounds:      func(t string) map[string]any { _, b, _ := c06.Opts(t); return map[string]any{"answer_deviation_bound": b, "answers": len(answerAlphabet)} },
 		Quick:       80 * time.Second, Thorough: 40 * time.Minute, Replay: c06.replay,
